@@ -17,6 +17,7 @@ import (
 	"encoding/json"
 	"errors"
 	"fmt"
+	"os"
 	"strconv"
 	"strings"
 	"testing"
@@ -93,6 +94,9 @@ func classify(r common.Result) int64 {
 	case errors.Is(err, providertypes.ErrUnauthorized):
 		return eBasic
 	}
+	if os.Getenv("VERIF_DEBUG") != "" {
+		fmt.Fprintln(os.Stderr, "unclassified:", err)
+	}
 	return eOther
 }
 
@@ -138,7 +142,8 @@ func (d *drv) snapshot(res int64) common.T {
 			if p, found := env.K.GetValidatorByConsumerAddr(env.Ctx, id, ca); found {
 				byaddr[k] = d.keyID(p.ToSdkConsAddr())
 			}
-			resolve[k] = d.keyID(env.K.GetProviderAddrFromConsumerAddr(env.Ctx, id, ca).ToSdkConsAddr())
+			rp := env.K.GetProviderAddrFromConsumerAddr(env.Ctx, id, ca)
+			resolve[k] = d.keyID(rp.ToSdkConsAddr())
 			pa := providertypes.NewProviderConsAddress(consAddr(int64(k)))
 			assigned[k] = int64(-1)
 			if pk, found := env.K.GetValidatorConsumerPubKey(env.Ctx, id, pa); found {
@@ -232,7 +237,7 @@ func (d *drv) step(a []int64) int64 {
 		return eOK
 	case 4: // Register
 		n := env.K.GetAllConsumerIds(env.Ctx)
-		msg := &providertypes.MsgCreateConsumer{Submitter: d.owner, ChainId: fmt.Sprintf("chain-%d", len(n)),
+		msg := &providertypes.MsgCreateConsumer{Submitter: d.owner, ChainId: fmt.Sprintf("chain%d-1", len(n)),
 			Metadata: providertypes.ConsumerMetadata{Name: "n", Description: "d", Metadata: "m"}}
 		return classify(env.Deliver(msg))
 	case 5: // Initialize c (setter behind a guard)
